@@ -26,7 +26,8 @@ type callSpec struct {
 	CtxLive bool `json:"ctxlive,omitempty"` // a cancellable context that is never cancelled (Done() != nil)
 	CtxDL   bool `json:"ctxdl,omitempty"`   // ... and it carries a deadline far in the future
 	Size    int  `json:"size"`
-	Segs    int  `json:"segs,omitempty"` // vector writes: number of segments (0 = two)
+	Segs    int  `json:"segs,omitempty"`  // vector writes: number of segments (0 = two)
+	Empty   bool `json:"empty,omitempty"` // synchronous channels only: a truly empty payload (nil / zero-length slice), no header
 }
 type writerSpec struct {
 	Calls []callSpec `json:"calls"`
@@ -85,6 +86,7 @@ type obs struct {
 	TClosed    int
 	Parked     []string
 	MaxQ       int
+	WriteSteps []int  // synchronous channel: call id of every t.write / t.writev step, in order (k-th step = k-th transport write event)
 	MaxUnsent  int    // largest number of payloads accepted (call returned ok) and not yet handed to the transport
 	Winner     int    // id of the Close call that took effect (-1: closed from inside, -2: never closed)
 	Stuck      string // a goroutine blocked although the scheduler's enabling condition said it could proceed
@@ -181,6 +183,13 @@ func runCfg(c cfg, choose func(step int, en []*sched.Thread, last *sched.Thread)
 				o.MaxUnsent = acc - sent
 			}
 		}
+		if c.QCap == 0 && (t.Point == "t.write" || t.Point == "t.writev") {
+			id := -1
+			if cl := cur[t.Index]; cl != nil {
+				id = cl.Cid
+			}
+			o.WriteSteps = append(o.WriteSteps, id)
+		}
 		if t.Point == "w.select" {
 			if cl := cur[t.Index]; cl != nil {
 				cl.QFullSel = st.QLen == st.QCap
@@ -209,6 +218,12 @@ func runCfg(c cfg, choose func(step int, en []*sched.Thread, last *sched.Thread)
 				cur[th.Index] = co
 				co.Cid = w*100 + k + 1
 				buf := payload(co.Cid, cs.Size)
+				if cs.Empty && c.QCap == 0 {
+					buf = []byte{}
+					if cs.Kind == 0 {
+						buf = nil
+					}
+				}
 				co.Payload = append([]byte(nil), buf...)
 				cctx := context.Background()
 				if cs.CtxLive {
@@ -387,6 +402,9 @@ func check(c cfg, o *obs, meta *hx.Meta) {
 				bufs = [][]byte{all}
 			}
 			for _, b := range bufs {
+				if c.QCap == 0 && len(b) == 0 {
+					continue // a truly empty payload: identified through the trace (WriteSteps), not through a header
+				}
 				if len(b) < 4 {
 					meta.Violate(hx.Violation{Property: "C01", What: "a foreign/short buffer reached the transport", Signature: "foreign", Replay: rep()})
 					continue
@@ -684,10 +702,15 @@ func (c cfg) coqSync(id int, o *obs) string {
 		res = append(res, hx.List(rs))
 	}
 	var tl []string
-	for _, b := range o.Batches {
-		for _, x := range b {
-			tl = append(tl, fmt.Sprint(x))
+	k := 0
+	for _, e := range o.Log {
+		if e.Kind != "write" && e.Kind != "writev" {
+			continue
 		}
+		if k < len(o.WriteSteps) && !e.Err {
+			tl = append(tl, fmt.Sprint(o.WriteSteps[k]))
+		}
+		k++
 	}
 	ina := make([]string, len(o.Inactive))
 	for i := range o.Inactive {
